@@ -841,6 +841,16 @@ class Phase(Angle):
             # if the output is (a view of) the dividend (``phase %= divisor``).
             overlap = phase_out is not None and np.may_share_memory(phase_out, self)
             this = self.copy() if overlap else self
+            # Likewise if the output is (a view of) the divisor.
+            other = inputs[1]
+            if (
+                phase_out is not None
+                and isinstance(other, Phase)
+                and np.may_share_memory(phase_out, other)
+            ):
+                other = other.copy()
+                divisor = other.cycle
+                divisor_parts = (other["int"], other["frac"])
             fd = np.floor_divide(this.cycle, divisor, out=fd_out)
             corr = Phase.from_angles(*divisor_parts, factor=fd, out=phase_out)
             remainder = np.subtract(this, corr, out=corr)
@@ -859,8 +869,8 @@ class Phase(Angle):
             dsign = np.sign(u.Quantity(divisor, copy=COPY_IF_NEEDED).value)
             beyond = np.where(
                 dsign > 0,
-                np.greater_equal(remainder, inputs[1]),
-                np.less_equal(remainder, inputs[1]),
+                np.greater_equal(remainder, other),
+                np.less_equal(remainder, other),
             )
             fdx = np.where(sign * dsign < 0, -1.0, np.where(beyond & (dsign != 0), 1.0, 0.0))
             if np.count_nonzero(fdx):
@@ -874,6 +884,22 @@ class Phase(Angle):
                 return remainder
             else:
                 return fd, remainder
+
+        elif (
+            function in {np.floor_divide, np.remainder, np.divmod}
+            and basic_real
+            and i_self == 1
+            and isinstance(inputs[0], u.Quantity)
+            and not isinstance(inputs[0], Phase)
+        ):
+            # A Quantity divided by a Phase: promote the dividend, so that both
+            # parts of the divisor are used.
+            try:
+                dividend = Phase(inputs[0], copy=False, subok=True)
+            except Exception:
+                pass
+            else:
+                return getattr(function, method)(dividend, inputs[1], **kwargs)
 
         elif function is np.positive and basic_phase_out:
             return self.from_angles(self["int"], self["frac"], out=phase_out)
